@@ -122,9 +122,10 @@ Definition run_with (v : variant) (c : case) : verdict :=
                                       | Panic _ => oeqb (o_key_url n) None
                                       end
                                   | None => true end) notes) ++
-        (* 6: Url::to_file_path of the URI the server produced *)
+        (* 6: Url::to_file_path of the URI the server produced (file: URLs only; the crate also
+           answers for other schemes with a rooted path, which is outside the model) *)
         flag 6 (forallb (fun n => match o_key_url n with
-                                  | Some t => oeqb (to_file_path t) (o_open n)
+                                  | Some t => negb (starts_with "file://" t) || oeqb (to_file_path t) (o_open n)
                                   | None => oeqb (o_open n) None end) notes) ++
         (* 7: the server's notes before and after didChange(note 0's URI, "# E") *)
         flag 7 (match o_loaded, o_before, o_after, k0 with
